@@ -89,7 +89,8 @@ def parse_dump(ints):
             n = z(); adj.append([z() for _ in range(n)])
         meshes.append(dict(outermost=om, cb=cb, isolated=iso, vs=vs, ts=ts, adj=adj))
     npairs = z(); pairs = [(z(), z()) for _ in range(npairs)]
-    return dict(npar=npar, ncb=ncb, meshes=meshes, pairs=pairs)
+    nd = z(); deflate_order = [z() for _ in range(nd)]
+    return dict(npar=npar, ncb=ncb, meshes=meshes, pairs=pairs, deflate_order=deflate_order)
 
 def mesh_wire(m):
     w = [len(m["vs"])] + m["vs"] + [len(m["ts"])] + [x for t in m["ts"] for x in t]
@@ -121,6 +122,16 @@ def canon_model(ints):
         r, it, c, idx, w, crit = body[i:i + 6]
         d.setdefault((r, it), []).append((c, idx, w))
     return {k: sorted(v) for k, v in d.items()}, nreg
+
+def join_model_outputs(outs):
+    """several model outputs (status, nregions, records of 6 with 1-based region numbers) -> one, regions renumbered consecutively"""
+    tot = 0; body = []
+    for o in outs:
+        ii = [int(x) for x in o.split()]
+        if ii[0] != 0: return o
+        for i in range(2, len(ii), 6): body += [ii[i] + tot] + ii[i + 1:i + 6]
+        tot += ii[1]
+    return " ".join(map(str, [0, tot] + body))
 
 def canon_impl(ints):
     if ints[0] != 0: return None, ints[1] if len(ints) > 1 else 0
@@ -333,7 +344,9 @@ def main(replay=None):
                     ck.violation(rp.get("signature", "hammer replay"), "replayed hammer case: %d repetitions differ from the 1-thread result, max |diff| %.3g" % (ints[2], fl[0]),
                                  dict(kind="hammer", cases=[c], impl=[o]))
         if rp.get("model_cases"):
-            mo = core.run_model(rp["model_cases"])
+            mo = []
+            for c in rp["model_cases"]:
+                outs = core.run_model(c.split(" && ")); mo.append(outs[0] if len(outs) == 1 else join_model_outputs(outs))
             for c, o, hc, ho in zip(rp["model_cases"], mo, cases, io):
                 print("replay (model): %s...\n  -> %s..." % (c[:80], o[:200]))
                 if hc.split()[1] == "1":
@@ -385,11 +398,14 @@ def main(replay=None):
         if k not in dumps: continue
         g = dumps[k]; n = g["npar"]
         if max(len(x["ts"]) for x in g["meshes"]) > 64: continue
+        if g["deflate_order"]:
+            # deflate runs over the whole geometry: the model is the concatenation, in the code's visiting order, of the
+            # regions of every mesh the real Geometry flags outermost (one model case per mesh, joined by "&&")
+            mcs = ["c05 " + " ".join(map(str, [9, 0, n] + mesh_wire(g["meshes"][a]) + mesh_wire(g["meshes"][a]))) for a in g["deflate_order"]]
+            team = max(len(g["meshes"][a]["vs"]) for a in g["deflate_order"]) + 2
+            fp_cases.append((" && ".join(mcs), "c05 1 %d 9 0 0 0 %d |" % (k, team), "%s, loop deflate over the outermost meshes %s, SymMatrix target" % (desc, g["deflate_order"])))
         for a, ma in enumerate(g["meshes"]):
             if ma["isolated"]: continue
-            if ma["outermost"] and ma["cb"]:
-                mc = "c05 " + " ".join(map(str, [9, 0, n] + mesh_wire(ma) + mesh_wire(ma)))
-                fp_cases.append((mc, "c05 1 %d 9 %d %d 0 %d |" % (k, a, a, len(ma["vs"]) + 2), "%s, mesh %d, loop deflate (whole geometry), SymMatrix target" % (desc, a)))
             if len(hk_cases) < (12 if quick else 60):
                 dp = [ck.rng.uniform(-0.2, 0.2) for _ in range(3)] + list(models.random_unit(ck.rng))
                 for hl, (ml, nm) in HOOKLOOPS.items():
@@ -398,7 +414,11 @@ def main(replay=None):
     fp_mism = 0; fp_acc = 0; fp_regions = 0
     if fp_cases:
         t0 = time.time()
-        mo = core.run_model([c[0] for c in fp_cases])
+        flatm = [x for c in fp_cases for x in c[0].split(" && ")]
+        mo_flat = core.run_model(flatm); mo = []; pos = 0
+        for c in fp_cases:
+            parts = c[0].split(" && "); outs = mo_flat[pos:pos + len(parts)]; pos += len(parts)
+            mo.append(outs[0] if len(parts) == 1 else join_model_outputs(outs))
         rc, io, err = core.run_harness(hb, [c[1] for c in fp_cases], wd, env=ENV, timeout=900)
         for (mc, hc, desc), m_out, i_out in zip(fp_cases, mo, io):
             mi = [int(x) for x in m_out.split()]
